@@ -296,6 +296,7 @@ def label(assign, for_signature=False):
 class CHECK(Check):
     pid = 'C06'
     level = 'exploration'
+    case_timeout = 900      # one case = one statement / plan on every database of the tier
     assumptions = ['sqlite 3.40 is the reference engine for both texts; mysql / postgresql renderings are compared where sqlite can execute them',
                    '`/`, `%`, `||` are kept out of the alphabet (dialect-divergent meaning)', 'ORDER BY keys are output columns so that order is observable']
 
